@@ -818,4 +818,26 @@ def replay(path):
             print("oracle:  ", why or "holds", "| class:", classify(sig, call))
             rc = rc or (1 if why else 0)
         return rc
+    if case.get("kind") == "validator" and "sig" in case:
+        sig = case["sig"]
+        out = []
+        fn = make_fn(sig, out)
+        vsig = inspect.signature(fn)
+        vsig = vsig.replace(parameters=list(vsig.parameters.values())[2:])
+        params = [(k, v) for k, v in case["params"]]
+        extra = [(k, v) for k, v in case["extra"]]
+        equiv_call = [["pos", v] if k is None else ["kw", k, v] for k, v in params] + [["kw", k, v] for k, v in extra]
+        py = run_python(fn, out, sig, equiv_call)
+        rc = 0
+        for use_code in (True, False):
+            r = run_validator(use_code, fn, vsig, params, extra, fn, out, sig)
+            why = oracle(sig, equiv_call, py, r)
+            print("render:   ", sig_src(sig).split("\n")[0])
+            print("validator:", "_validate_params_with_code" if use_code else "validate_params(func=None) -> _validate_params_with_signature",
+                  "params=%r extra_kwargs=%r, then render(self, context, *args, **kwargs)" % (params, extra))
+            print("python:   ", py)
+            print("result:   ", r)
+            print("oracle:   ", why or "holds", "| class:", classify(sig, equiv_call))
+            rc = rc or (1 if why else 0)
+        return rc
     return 0
